@@ -98,7 +98,7 @@ class Sim:
         """running | exit:<n> | sanitizer:<key> | stalled | signal:<n>"""
         if p.state == "stalled":
             return "stalled"
-        if getattr(p, "inv_bad", None) is not None:
+        if getattr(p, "inv_bad", None) is not None and getattr(self, "judge_table_invariants", False):
             # the users[] table failed one of its structural invariants at a select(): reported like a sanitizer finding
             return "sanitizer:table-invariant:bits_%04x" % p.inv_bad[2]
         if p.alive():
